@@ -50,7 +50,8 @@ RULE = (
     "Task name/Allocated Resources/Start/End/Duration/Scheduled of the solution in order; (C) to_excel_file(colors="
     "False|True) re-read with zipfile+xml.etree: resource sheet row i+1 = name + one bar on columns start+1..end per "
     "positive-length assignment with the task name, task sheet row i+1 = name + bar with ','.join(assigned_resources) "
-    "for scheduled positive-length tasks, indicator sheet = indicators. (D) per generated problem: export_to_smt2 -> "
+    "for scheduled positive-length tasks, indicator sheet = indicators. (D) per generated problem and solver mode (plain, incremental / built-in optimiser with an objective, "
+    "debug, debug + incremental; in half of the cases after a solve() on the same solver): export_to_smt2 -> "
     "z3.parse_smt2_file into a fresh solver: same sat/unsat as the live solver without pins and under each generated pin "
     "set over task variables (translated by constant name), the parsed system's models read back by name are valid task "
     "schedules (reference rules T, TC; resource-free problems) and are admitted by the live solver, and the live "
